@@ -18,6 +18,7 @@ type crashPoint struct {
 	After  time.Duration // timed kill instant
 	Double string        // second interruption of the rerun (failpoint spec or "timed"), "" = none
 	After2 time.Duration // instant of a timed second interruption
+	Debugdir bool        // the build also writes a -debugdir
 }
 
 // lastPhase summarises where a killed run was, from the tail of its event log.
@@ -97,6 +98,10 @@ func checkC18(c *Ctx) {
 		{Name: "link.afterBuild", State: "cold-nolinker", Fail: "link.afterBuild=kill"},
 		{Name: "link.afterStamp", State: "cold-nolinker", Fail: "link.afterStamp=kill", Double: "toolexec.beforeExec.link=kill"},
 		{Name: "beforeExec.compile/runtime", State: "cold-nolinker", Fail: "toolexec.beforeExec.compile/runtime=kill"},
+		// builds that also write a -debugdir: the interrupted directory must not block the rerun
+		{Name: "debugdir/beforeExec.compile/main", State: "warm", Fail: "toolexec.beforeExec.compile/" + mainPkg + "=kill", Debugdir: true},
+		{Name: "debugdir/beforeExec.compile/strconv", State: "warm", Fail: "toolexec.beforeExec.compile/strconv=kill", Debugdir: true},
+		{Name: "debugdir/top.beforeCleanup", State: "warm", Fail: "top.beforeCleanup=kill", Debugdir: true},
 	}
 	rng := subRand(c.Seed, "c18times", c.Tier)
 	nWarmTimed, nColdTimed := c.pick(4, 30), c.pick(3, 40)
@@ -146,7 +151,12 @@ func checkC18(c *Ctx) {
 			if after > 0 {
 				timeout = after
 			}
-			r := Run(Cmd{Dir: w.Dir, Env: box.Env(env...), Argv: garbleArgv(g, K0, "build", args...), Timeout: timeout})
+			cfg := K0
+			if cp.Debugdir {
+				// The same command, but also asking for the source/garbled trees (outside the module).
+				cfg = K0.with("K0dd", []string{"-debugdir=" + filepath.Join(w.Root, "zqdebugdir")}, nil, nil)
+			}
+			r := Run(Cmd{Dir: w.Dir, Env: box.Env(env...), Argv: garbleArgv(g, cfg, "build", args...), Timeout: timeout})
 			killed := false
 			if after > 0 {
 				killed = r.TimedOut // Run kills the whole process group with SIGKILL
